@@ -541,16 +541,21 @@ func scanSet(expr *lisp.LVal) *ExternalSymbol {
 }
 
 func scanExportNames(expr *lisp.LVal) []string {
-	var names []string
-	for _, arg := range expr.Cells[1:] {
-		name := ""
-		if arg.Type == lisp.LSymbol {
-			name = arg.Str
-		} else if arg.Type == lisp.LSExpr && arg.IsQuoted() && len(arg.Cells) > 0 && arg.Cells[0].Type == lisp.LSymbol {
-			name = arg.Cells[0].Str
-		}
-		if name != "" {
-			names = append(names, name)
+	return appendExportNames(nil, expr.Cells[1:])
+}
+
+// appendExportNames collects the names an export form exports.  The export
+// builtin accepts symbols, strings and (nested) lists of those, so
+// (export "pub") and (export '(a b)) export pub, a and b.
+func appendExportNames(names []string, args []*lisp.LVal) []string {
+	for _, arg := range args {
+		switch {
+		case arg.Type == lisp.LSymbol || arg.Type == lisp.LString:
+			if arg.Str != "" {
+				names = append(names, arg.Str)
+			}
+		case arg.Type == lisp.LSExpr && arg.IsQuoted():
+			names = appendExportNames(names, arg.Cells)
 		}
 	}
 	return names
